@@ -653,6 +653,16 @@ def gen(seed, tier):
                 ops.append(req(r, 50, r.choice([src0, src0, 255]), p))
             ops.append('P')
         cases.append(line + ' | ' + ' ; '.join(ops))
+    # 8. a request behind a backlog: one ParseMessages call takes 20 frames, the 21st and later ones stay in the driver and are answered
+    #    at the next call - a burst of requests, and a request behind ordinary traffic (seeds C08-18 / C03-17)
+    from nodegen import backlog
+    for k in ([19, 20, 21] if not thorough else list(range(12, 48))):
+        line, ndev, src0, mode = cfg_line(r, ndev=1, mode=1, q=40, lists=False)
+        p = r.choice([126996, 60928, 126998, 65300, 126464])
+        cases.append(line + ' | ' + ' ; '.join(backlog(r, k, [req(r, 50, r.choice([src0, 255]), p)]) + ['T 300', 'P']))
+    for nreq in ([25] if not thorough else [21, 22, 25, 41, 45]):
+        line, ndev, src0, mode = cfg_line(r, ndev=1, mode=1, q=40, lists=False)
+        cases.append(line + ' | ' + ' ; '.join([req(r, 50 + j, src0, 65300 + j) for j in range(nreq)] + ['P', 'T 5', 'P', 'T 5', 'P', 'T 300', 'P']))
     return cases
 
 
